@@ -17,11 +17,13 @@ BOUNDS = ('all data bit patterns; run-time index vectors: every vector with entr
           'Outside: compile-time masks not in the family.')
 ASSUMPTIONS = ['clang-14 -O1 lowering is correct', 'x86 intrinsic models', 'run-time indices < size, extract_pair index < size (asserted by the library)',
                'batch_bool masks canonical']
-MIN_COVERED = {'quick': 8000, 'thorough': 20000}
+MIN_COVERED = {'quick': 2500, 'thorough': 20000}
+QUICK_ARCHS = ['sse2', 'ssse3', 'sse4_1', 'avx', 'avx2', 'avx512f', 'avx512bw', 'avx512vbmi', 'avx512vbmi2']
 
 
 def kernels(tier, seed):
-    archs = gen.ALL_ARCHS + (['emu128', 'emu256'] if tier == 'thorough' else [])
+    # quick: one architecture per distinct data-movement kernel file (the others inherit these bodies); thorough: all 23 + emulated
+    archs = QUICK_ARCHS if tier == 'quick' else gen.ALL_ARCHS + ['emu128', 'emu256']
     return K.c05(archs, tier, seed)
 
 
@@ -123,5 +125,5 @@ def obligations(run):
     for i in range(n):
         ra = [D[0]['lanes'][i]] if D and D[0]['kind'] == 'v' else None
         obs.append(Oblig(op, pre, (lambda i: lambda res: tobv(bits_of(res[i]), w) == want[i])(i), lane=i,
-                         region_args=[D[2]['sym']] if op == 'extract_pair' else None))
+                         region_args=[D[2]['sym']] if op == 'extract_pair' else []))
     return obs
